@@ -349,3 +349,49 @@ def _plausible_block(x):
     if n not in (17, 18, 19, 20):
         return False
     return len(b) - hdr < 65536
+
+
+def _clearly_not_a_header(x):
+    """A hex string that no reading of the docs makes a block header: not one RLP list, or a
+    list whose number of items is not 17..20 (lists with nested items stay undecided)."""
+    from .device import rlp_total_len
+    if not is_hex(x) or len(x) == 0:
+        return False
+    b = bytes.fromhex(x)
+    if b[0] < 0xc0:
+        return True
+    t = rlp_total_len(b)
+    if t is None or t != len(b):
+        return True
+    hdr = 1 if b[0] <= 0xf7 else 1 + (b[0] - 0xf7)
+    pos, n = hdr, 0
+    while pos < len(b):
+        t = rlp_total_len(b[pos:])
+        if t is None or pos + t > len(b):
+            return True
+        if b[pos] >= 0xc0:
+            return False
+        pos += t
+        n += 1
+    return n not in (17, 18, 19, 20)
+
+
+def only_brothers_invalid(req, mode):
+    """An advanceBlockchain request in which everything is in order except that some brother is
+    clearly not a block header. Who finds out - the manager or the device - the docs do not
+    say; what the finding is called they do: -205, invalid brothers (-204 speaks of the input
+    blocks, which are fine here)."""
+    if mode != "v5" or type(req) is not dict or req.get("command") != "advanceBlockchain":
+        return False
+    if set(req) != {"command", "version", "blocks", "brothers"} or \
+            type(req["version"]) is not int or req["version"] != 5:
+        return False
+    b, br = req["blocks"], req["brothers"]
+    if type(b) is not list or not b or not all(type(x) is str and _plausible_block(x) for x in b):
+        return False
+    if type(br) is not list or len(br) != len(b) or not all(
+            type(l_) is list and len(l_) <= 10 and all(type(x) is str and is_hex(x) and x
+                                                       for x in l_) for l_ in br):
+        return False
+    bad = [x for l_ in br for x in l_ if not _plausible_block(x)]
+    return bool(bad) and all(_clearly_not_a_header(x) for x in bad)
